@@ -130,6 +130,12 @@ func checkC14(e *RunEnv) *CheckResult {
 				{Run("rm", "a")}, // the staging area emptied: the history is unchanged
 				{Write("a", "hdr\n"), Run("add", "a"), Run("commit", "-m", "subject\nparent "+strings.Repeat("ab", 20)+"\nauthor A <a@b.co> 1 +0000")},
 			}
+			if L == 1 || L == 7 {
+				// counts far beyond any chain length: still exactly the whole chain
+				for _, k := range []string{"1000000", "4294967296", "1000000000000000", "9223372036854775807"} {
+					cs = append(cs, Case{Base: base, BaseName: fmt.Sprintf("chain%d", L), BaseSeed: seed, Steps: []Step{Run("log", "-n", k).WithTags("huge-count")}})
+				}
+			}
 			for vi, v := range variants {
 				for _, lg := range logs(L) {
 					steps := append(append([]Step{}, v...), lg.WithTags(fmt.Sprintf("variant-%d", vi)))
